@@ -2,6 +2,7 @@ package checks
 
 import (
 	"fmt"
+	"verif/harness/refcbor"
 
 	cose "github.com/veraison/go-cose"
 
@@ -185,6 +186,15 @@ type c05splice struct {
 // countersignature nested below a valid one.
 func c05splices(r *mon.Rand, t *gen.Tree) []c05splice {
 	var out []c05splice
+	// the whole encoding inside one more tag (the tags of the COSE and CWT registries, the
+	// self-described tag, a few others): an envelope decoder takes its own tag and nothing around it
+	if whole := t.Seal(); len(whole) > 0 {
+		for _, tg := range []uint64{61, 18, 98, 16, 17, 96, 97, 24, 0, 2, 55799, 65535} {
+			if r.Intn(3) == 0 {
+				out = append(out, c05splice{fmt.Sprintf("outer-tag-%d", tg), append(refcbor.AppendHead(nil, refcbor.Tag, tg, 0), whole...)})
+			}
+		}
+	}
 	body := func(t *gen.Tree) (prot, unprot *Node) {
 		n := t.Root
 		if n.Major == 6 {
